@@ -240,6 +240,30 @@ theorem runSkipN_keeps_valid (fuel : Nat) (ins : List (List Candle)) (e : Engine
     rw [List.range_succ, List.foldl_append]
     exact skipAt_keeps_valid u fuel _ _ _ _ ih
 
+/-- the minutes the fast simulator SORTS a chunk along (`path_candles`, model `fixChunk`) are as many as the chunk's and
+    all valid — so `sorted_head_first_on_path` applies to them as it does to the single minute of the normal simulator -/
+theorem fixChunk_valid (cs : List Candle) : ∀ (prev : Option Candle), (∀ k ∈ cs, k.Valid) →
+    (fixChunk prev cs).length = cs.length ∧ ∀ k ∈ fixChunk prev cs, k.Valid := by
+  induction cs with
+  | nil => intro prev _; cases prev <;> simp [fixChunk]
+  | cons c cs ih =>
+    intro prev hv
+    have hc : c.Valid := hv c List.mem_cons_self
+    have hr := ih (some c) (fun k hk => hv k (List.mem_cons_of_mem _ hk))
+    cases prev with
+    | none =>
+      simp only [fixChunk, List.length_cons, hr.1, true_and]
+      intro k hk
+      rcases List.mem_cons.mp hk with h | h
+      · rw [h]; exact hc
+      · exact hr.2 k h
+    | some p =>
+      simp only [fixChunk, List.length_cons, hr.1, true_and]
+      intro k hk
+      rcases List.mem_cons.mp hk with h | h
+      · rw [h]; exact (C07.fix_jump_bounds p c hc).1
+      · exact hr.2 k h
+
 theorem chunk_minute_valid (prev : Option Candle) (c : Candle) (hc : c.Valid) :
     (match prev with | some p => fixJump p c | none => c).Valid := by
   cases prev with
